@@ -43,14 +43,14 @@ for sect in ("well", "params", "curves", "custom"):
 
 def grid(tier):
     import random
-    for k in range(36):
+    for k in range(48):
         rng = random.Random("C17grid%d" % k)
         spec = lasobj.rand_spec(rng, text_curve=0.0, min_curves=3, custom=0.0)
         if len(spec["curves"][0][4]) < 4:
             for c in spec["curves"]:
                 c[4] = (c[4] * 4)[:4]
             spec["curves"][0][4] = [100.0 + 0.5 * i for i in range(4)]
-        variant = ["numeric_text_curve", "stale_suffix", "edited_index"][k % 3]
+        variant = ["numeric_text_curve", "stale_suffix", "edited_index", "padded_names"][k % 4]
         yield {"kind": "spec", "spec": spec, "via": "upper" if variant == "edited_index" else None, "methods": METHODS, "variant": variant}
     for sect, names in GRID_SPECS:
         for via in (None, "preserve", "upper", "lower"):
@@ -66,7 +66,7 @@ def n_random(tier):
 def random_case(rng, tier):
     spec = lasobj.rand_spec(rng)
     via = rng.choice([None, None, "preserve", "upper", "lower"])
-    return {"kind": "spec", "spec": spec, "via": via, "methods": rng.sample(METHODS, 3), "seed_variant": rng.randrange(4)}
+    return {"kind": "spec", "spec": spec, "via": via, "methods": rng.sample(METHODS, 3), "seed_variant": rng.randrange(5)}
 
 
 def layout_spec(section, names):
@@ -117,7 +117,7 @@ def run_case(case, ctx):
         if via and (case["kind"] == "layout" or text_can_carry(spec)) and not _has_custom_or_textcurve(spec):
             spec["via_text"] = {"read": {"mnemonic_case": via}}
         methods = case.get("methods", METHODS)
-        variant = case.get("variant") or ("none" if case["kind"] == "layout" else ["none", "numeric_text_curve", "stale_suffix", "edited_index"][case.get("seed_variant", 0) % 4])
+        variant = case.get("variant") or ("none" if case["kind"] == "layout" else ["none", "numeric_text_curve", "stale_suffix", "edited_index", "padded_names"][case.get("seed_variant", 0) % 5])
 
         def rebuild():
             las = lasobj.build(lasio, spec)
@@ -130,6 +130,17 @@ def run_case(case, ctx):
                 # the index was edited after the read (top row cropped), the last sample still equals the header STOP
                 if all(np.asarray(c.data).dtype.kind == "f" for c in las.curves):
                     las.set_data(las.data[1:])
+            if variant == "padded_names":
+                # names assigned after construction: whitespace-only blanks and names with surrounding blanks
+                if len(las.curves) >= 2:
+                    las.curves[-1].mnemonic = "  "
+                    las.curves[1].mnemonic = " RT"
+                if len(las.params):
+                    las.params[0].mnemonic = "PAD  "
+                las.params.append(lasio.HeaderItem("X", "", 1, "renamed to blanks"))
+                las.params[-1].mnemonic = "   "
+                for sec in (las.curves, las.params):
+                    sec.assign_duplicate_suffixes()
             if variant == "stale_suffix":
                 # delete the first member of every duplicate family: the survivors keep their (now stale) suffixes
                 for sec in las.sections.values():
